@@ -140,11 +140,15 @@ class FileResponseMixin:
         }
         if download_name or content_type == "application/octet-stream":
             download_name = download_name or os.path.basename(filepath)
-            content_disposition = (
-                "attachment; "
-                f'filename="{download_name}"; '
-                f"filename*=utf-8''{quote(download_name)}"
-            )
+            content_disposition = "attachment; "
+            try:
+                # header values travel as Latin-1: the plain form is only
+                # possible for names that can be written in it
+                download_name.encode("latin-1")
+                content_disposition += f'filename="{download_name}"; '
+            except UnicodeEncodeError:
+                pass
+            content_disposition += f"filename*=utf-8''{quote(download_name)}"
             headers["content-disposition"] = content_disposition
 
         return headers
